@@ -14,6 +14,7 @@ mod builder_ops;
 mod inventory;
 mod modes;
 mod pool;
+mod post;
 
 use serde_json::{json, Value};
 use std::io::{BufRead, Write};
